@@ -515,7 +515,8 @@ def enum_tests(fn, adt_rx, variant):
     for c in fn.calls(r"::(eq|ne)$"):
         if not any(adt_rx.search(a) for a in c.f.get("args", []) if isinstance(a, str)) and not any(adt_rx.search(fn.locals[(a.get("m") or a.get("c") or [0])[0]]) for a in c.args if (a.get("m") or a.get("c"))):
             continue
-        const_v = any(fn.roots(a) and all(r[0] == "const" and r[1].endswith("::" + variant) for r in fn.roots(a)) for a in c.args)
+        const_v = any((fn.roots(a) and all(r[0] == "const" and r[1].endswith("::" + variant) for r in fn.roots(a))) or
+                      {x.lstrip("&") for x in fn.shape(a)} == {variant} for a in c.args)
         if not const_v or not c.dest:
             continue
         for sw, t, f in fn.bool_tests(c.dest[0]):
